@@ -111,6 +111,10 @@ def validate_ast(node: ast.AST, allowed: Set[type] = ALLOWED_NODES) -> None:
     """
     if type(node) not in allowed:
         raise UnsafeNodeError(f"Disallowed node type: {type(node).__name__}")
+    # Literals are the data of the language: text, numbers, true/false/none. `...`, b"..." and
+    # 1j are Constant nodes too, but their values are interpreter objects, not data.
+    if isinstance(node, ast.Constant) and not isinstance(node.value, (str, int, float, bool, type(None))):
+        raise UnsafeNodeError(f"Disallowed literal: {type(node.value).__name__}")
 
     for child in ast.iter_child_nodes(node):
         validate_ast(child, allowed)
